@@ -67,18 +67,36 @@ def lists(tier):
     return out
 
 
+def mixed_lists(tier):
+    """Tempo lists given by OFFSETS with a metronome that changes mid-measure (times are unambiguous in ms): only the
+    TimingMap.reseat() entry point is exercised on them."""
+    out = []
+    pairs = [(4, 3), (7, 4), (3, 4), (4, 5), (5, 3), (4, 2)]
+    gaps = [F(k, 2) for k in range(1, 19)] if tier == "thorough" else [F(k) for k in range(1, 10)] + [F(5, 2), F(7, 2)]
+    for m0, m1 in pairs:
+        for g in gaps:
+            out.append([(F(120), m0, F(0)), (F(90), m1, g)])
+            for g2 in (F(2), F(5), F(13, 2)):
+                out.append([(F(120), m0, F(0)), (F(90), m1, g), (F(180), m0, g + g2)])
+    return out
+
+
 CHUNK = 400
 
 
 def roots(tier, seed):
     n = len(lists(tier))
-    return [dict(start=s, stop=min(n, s + CHUNK)) for s in range(0, n, CHUNK)]
+    return [dict(start=s, stop=min(n, s + CHUNK)) for s in range(0, n, CHUNK)] + [dict(mixed=True)]
 
 
 _C = {}
 
 
 def explore(root, tier, ctx):
+    if root.get("mixed"):
+        for i, ch in enumerate(mixed_lists(tier)):
+            check_mixed(ch, INITS[i % 3], ctx)
+        return
     if tier not in _C:
         _C[tier] = lists(tier)
     ls = _C[tier]
@@ -87,7 +105,56 @@ def explore(root, tier, ctx):
         check_one(tag, m, ch, INITS[i % 3], ctx)
 
 
+def check_mixed(ch, init, ctx):
+    """ch: [(bpm, metronome, beats from the first change)] ; entry: TimingMap.from_bpm_changes_offset(...).reseat()."""
+    from reamber.algorithms.timing.TimingMap import TimingMap
+    from reamber.algorithms.timing.utils.BpmChangeOffset import BpmChangeOffset
+
+    case = dict(tag="mixed", init=str(init), changes=[(str(b), m, str(p)) for b, m, p in ch])
+    ots = [F(init)]
+    for (b0, m0, p0), (b1, m1, p1) in zip(ch[:-1], ch[1:]):
+        ots.append(ots[-1] + (p1 - p0) * F(60000) / b0)
+    ctx.state(("c11-mixed", str(init), tuple(case["changes"])), nontrivial=True)
+    ctx.case()
+    ctx.transition(2)
+    site = dict(entry="TimingMap.reseat", mixed_metronome=True, n_changes=len(ch))
+    try:
+        tm0 = TimingMap.from_bpm_changes_offset([BpmChangeOffset(float(b), m, float(t)) for (b, m, p), t in zip(ch, ots)])
+        tm3 = tm0.reseat()
+        bco = tm3.bpm_changes_offset
+        bcs = tm3.bpm_changes_snap()
+    except Exception as e:
+        ctx.check("raises", False, site=dict(site, exc=type(e).__name__, eps_near_line=False), case=case, observed=f"{type(e).__name__}: {e}"[:200], expected="a TimingMap")
+        return
+    ctx.passed("raises")
+    fl = [float(b.offset) for b in bco]
+    ctx.check("on_measure", all(s.snap.beat == 0 for s in bcs), site=site, case=case, observed=[str(s.snap) for s in bcs], expected="all beats 0")
+    miss = [float(t) for t in ots if not any(abs(float(t) - x) <= TOL + 1e-12 * abs(float(t)) for x in fl)]
+    ctx.check("orig_times_kept", not miss, site=site, case=case, observed=dict(result_times=fl, missing=miss), expected=[float(t) for t in ots])
+    if miss:
+        return
+    bad = []
+    for a, b in zip(ots[:-1], ots[1:]):
+        inside = [x for x in fl if float(a) + TOL < x < float(b) - TOL]
+        if len(inside) > 1:
+            bad.append((float(a), float(b), inside))
+    ctx.check("at_most_one_insert", not bad and not [x for x in fl if x > float(ots[-1]) + TOL], site=site, case=case, observed=bad, expected="<=1 inserted point per original interval")
+    wrong = []
+    for k, (b, m, p) in enumerate(ch):
+        whole = k == len(ch) - 1 or ((ch[k + 1][2] - p) % m == 0)
+        if whole:
+            idx = [j for j, x in enumerate(fl) if abs(x - float(ots[k])) <= TOL + 1e-12 * abs(x)]
+            act = bco[idx[-1]].bpm
+            if abs(act - float(b)) > 1e-9 * float(b):
+                wrong.append((k, float(b), act))
+    ctx.check("bpm_kept_if_whole", not wrong, site=site, case=case, observed=wrong, expected="original bpm at those changes")
+    ctx.outcome((tuple(round(x, 6) for x in fl), tuple(round(float(b.bpm), 9) for b in bco)))
+
+
 def replay(case, ctx):
+    if case.get("tag") == "mixed":
+        check_mixed([(F(b), int(m), F(p)) for b, m, p in case["changes"]], F(case["init"]), ctx)
+        return
     ch = [(F(b), F(p)) for b, p in case["changes"]]
     check_one(case["tag"], case["metronome"], ch, F(case["init"]), ctx)
 
